@@ -44,6 +44,8 @@ import (
 	stakingState "github.com/oasisprotocol/oasis-core/go/consensus/cometbft/apps/staking/state"
 	tmcrypto "github.com/oasisprotocol/oasis-core/go/consensus/cometbft/crypto"
 	"github.com/oasisprotocol/oasis-core/go/consensus/genesis"
+	genesisAPI "github.com/oasisprotocol/oasis-core/go/genesis/api"
+	cmttypes "github.com/cometbft/cometbft/abci/types"
 	registry "github.com/oasisprotocol/oasis-core/go/registry/api"
 	"github.com/oasisprotocol/oasis-core/go/roothash/api/message"
 	staking "github.com/oasisprotocol/oasis-core/go/staking/api"
@@ -264,6 +266,74 @@ func runtimeDescriptor(id, ent int, gov, kind string) *registry.Runtime {
 	return rt
 }
 
+func addrOf(s string) staking.Address {
+	if s[0] == 'e' {
+		return staking.NewAddress(U.pk[atoi(s[1:])])
+	}
+	return staking.NewRuntimeAddress(U.rt[atoi(s[1:])])
+}
+
+func genItems(word, tag string) []string {
+	if !strings.HasPrefix(word, tag+"=") {
+		panic("bad genesis group " + word)
+	}
+	v := word[len(tag)+1:]
+	if v == "-" {
+		return nil
+	}
+	return strings.Split(v, ";")
+}
+
+// buildGenesis builds the registry genesis state from the protocol form
+// E=<id>:<nodes>:<signer>:<valid>;.. R=<id>:<ent>:<gov>:<kind>;.. S=<rt>;.. N=<node>/<signers>/<valid>;.. T=<id>:<proc>:<freeze>;..
+func buildGenesis(w []string, maxExp uint64) registry.Genesis {
+	g := registry.Genesis{Parameters: regParams(maxExp), NodeStatuses: map[signature.PublicKey]*registry.NodeStatus{}}
+	for _, it := range genItems(w[0], "E") {
+		f := strings.Split(it, ":")
+		ent := entity.Entity{Versioned: cbor.NewVersioned(entity.LatestDescriptorVersion), ID: U.pk[atoi(f[0])]}
+		for _, i := range nums(f[1]) {
+			ent.Nodes = append(ent.Nodes, U.pk[i])
+		}
+		se, err := entity.SignEntity(U.signer[atoi(f[2])], registry.RegisterGenesisEntitySignatureContext, &ent)
+		must(err)
+		if f[3] == "0" {
+			se.Signature.Signature[3] ^= 0x40
+		}
+		g.Entities = append(g.Entities, se)
+	}
+	rtOf := func(it string) *registry.Runtime {
+		f := strings.Split(it, ":")
+		return runtimeDescriptor(atoi(f[0]), atoi(f[1]), f[2], f[3])
+	}
+	for _, it := range genItems(w[1], "R") {
+		g.Runtimes = append(g.Runtimes, rtOf(it))
+	}
+	for _, it := range genItems(w[2], "S") {
+		g.SuspendedRuntimes = append(g.SuspendedRuntimes, rtOf(it))
+	}
+	for _, it := range genItems(w[3], "N") {
+		f := strings.Split(it, "/")
+		n := parseNode(f[0])
+		var ss []signature.Signer
+		for _, i := range nums(f[1]) {
+			ss = append(ss, U.signer[i])
+		}
+		sn, err := node.MultiSignNode(ss, registry.RegisterGenesisNodeSignatureContext, n.descriptor())
+		must(err)
+		if f[2] == "0" && len(sn.Signatures) > 0 {
+			sn.Signatures[0].Signature[3] ^= 0x40
+		}
+		g.Nodes = append(g.Nodes, sn)
+	}
+	for _, it := range genItems(w[4], "T") {
+		f := strings.Split(it, ":")
+		u, err := strconv.ParseUint(f[2], 10, 64)
+		must(err)
+		g.NodeStatuses[U.pk[atoi(f[0])]] = &registry.NodeStatus{ExpirationProcessed: f[1] == "1", FreezeEndTime: beacon.EpochTime(u)}
+	}
+	return g
+}
+
 // ----------------------------------------------------------------------------- error classes
 
 func classify(err error) string {
@@ -295,11 +365,17 @@ func classify(err error) string {
 		return "runtime-update-not-allowed"
 	case errors.Is(err, staking.ErrInsufficientStake):
 		return "insufficient-stake"
+	case errors.Is(err, registry.ErrNoSuchNode):
+		return "no-such-node"
+	case errors.Is(err, registry.ErrBadEntityForNode):
+		return "bad-entity-for-node"
+	case errors.Is(err, registry.ErrNodeCannotBeUnfrozen):
+		return "node-cannot-be-unfrozen"
 	case errors.Is(err, registry.ErrInvalidArgument):
 		why := "other"
 		switch {
-		case err == registry.ErrInvalidArgument:
-			why = "bare"
+		case err == registry.ErrInvalidArgument || strings.HasSuffix(msg, "failure: "+registry.ErrInvalidArgument.Error()):
+			why = "bare" // returned without detail (InitChain wraps it with "... registration failure: ")
 		case has("not signed by node identity"):
 			why = "unsigned-id"
 		case has("not found in entity's node list"):
@@ -348,6 +424,7 @@ type impl struct {
 	state    *registryState.MutableState
 	stake    *stakingState.MutableState
 	app      *registryApp.Application
+	maxExp   uint64
 }
 
 func must(err error) {
@@ -356,30 +433,46 @@ func must(err error) {
 	}
 }
 
-func newImpl(maxExp, debond uint64) *impl {
+// regParams are the registry consensus parameters of every case (also the genesis document's).
+func regParams(maxExp uint64) registry.ConsensusParameters {
+	return registry.ConsensusParameters{
+		MaxNodeExpiration:      beacon.EpochTime(maxExp),
+		DebugAllowTestRuntimes: true,
+		MaxRuntimeDeployments:  20,
+		EnableRuntimeGovernanceModels: map[registry.RuntimeGovernanceModel]bool{
+			registry.GovernanceEntity: true, registry.GovernanceRuntime: true, registry.GovernanceConsensus: true,
+		},
+	}
+}
+
+// thrKinds are the staking threshold kinds in the order of the protocol's threshold list.
+var thrKinds = []staking.ThresholdKind{
+	staking.KindEntity, staking.KindNodeValidator, staking.KindNodeCompute, staking.KindNodeObserver,
+	staking.KindNodeKeyManager, staking.KindRuntimeCompute, staking.KindRuntimeKeyManager,
+}
+
+func newImpl(maxExp, debond uint64, thr []int) *impl {
 	cfg := &abciAPI.MockApplicationStateConfig{}
 	appState := abciAPI.NewMockApplicationState(cfg)
 	ctx := appState.NewContext(abciAPI.ContextEndBlock)
 	im := &impl{cfg: cfg, appState: appState, ctx: ctx}
 	im.state = registryState.NewMutableState(ctx.State())
 	im.stake = stakingState.NewMutableState(ctx.State())
-	zero := *quantity.NewFromUint64(0)
+	im.maxExp = maxExp
+	ths := map[staking.ThresholdKind]quantity.Quantity{staking.KindKeyManagerChurp: *quantity.NewFromUint64(0)}
+	for i, k := range thrKinds {
+		v := 0
+		if i < len(thr) {
+			v = thr[i]
+		}
+		ths[k] = *quantity.NewFromUint64(uint64(v))
+	}
 	must(im.stake.SetConsensusParameters(ctx, &staking.ConsensusParameters{
 		DebondingInterval: beacon.EpochTime(debond),
-		Thresholds: map[staking.ThresholdKind]quantity.Quantity{
-			staking.KindEntity: zero, staking.KindNodeValidator: zero, staking.KindNodeCompute: zero,
-			staking.KindNodeKeyManager: zero, staking.KindRuntimeCompute: zero, staking.KindRuntimeKeyManager: zero,
-			staking.KindNodeObserver: zero, staking.KindKeyManagerChurp: zero,
-		},
+		Thresholds:        ths,
 	}))
-	must(im.state.SetConsensusParameters(ctx, &registry.ConsensusParameters{
-		MaxNodeExpiration:      beacon.EpochTime(maxExp),
-		DebugAllowTestRuntimes: true,
-		MaxRuntimeDeployments:  20,
-		EnableRuntimeGovernanceModels: map[registry.RuntimeGovernanceModel]bool{
-			registry.GovernanceEntity: true, registry.GovernanceRuntime: true,
-		},
-	}))
+	rp := regParams(maxExp)
+	must(im.state.SetConsensusParameters(ctx, &rp))
 	must(beaconState.NewMutableState(ctx.State()).SetConsensusParameters(ctx, &beacon.ConsensusParameters{Backend: beacon.BackendInsecure}))
 	must(consensusState.NewMutableState(ctx.State()).SetConsensusParameters(ctx, &genesis.Parameters{
 		FeatureVersion: &version.Version{Major: 100},
@@ -444,6 +537,31 @@ func (im *impl) exec(w []string) string {
 			return "fatal"
 		}
 		return "ok"
+	case "unfreeze": // unfreeze <tx> <id>
+		return classify(im.tx(atoi(w[1]), registry.MethodUnfreezeNode, &registry.UnfreezeNode{NodeID: U.pk[atoi(w[2])]}))
+	case "freeze": // freeze <id> <until>   (what slashing does: read the status, set FreezeEndTime, write it)
+		ns, err := im.state.NodeStatus(im.ctx, U.pk[atoi(w[1])])
+		if err != nil {
+			return "ok"
+		}
+		u, err := strconv.ParseUint(w[2], 10, 64)
+		must(err)
+		ns.FreezeEndTime = beacon.EpochTime(u)
+		return classify(im.state.SetNodeStatus(im.ctx, U.pk[atoi(w[1])], ns))
+	case "setbalance": // setbalance <e<k>|r<id>> <amount>
+		addr := addrOf(w[1])
+		acct, err := im.stake.Account(im.ctx, addr)
+		must(err)
+		u, err := strconv.ParseUint(w[2], 10, 64)
+		must(err)
+		acct.Escrow.Active.Balance = *quantity.NewFromUint64(u)
+		acct.Escrow.Active.TotalShares = *quantity.NewFromUint64(u)
+		return classify(im.stake.SetAccount(im.ctx, addr, acct))
+	case "initchain": // initchain E=.. R=.. S=.. N=.. T=..
+		doc := &genesisAPI.Document{Registry: buildGenesis(w[1:], im.maxExp)}
+		ictx := im.appState.NewContext(abciAPI.ContextInitChain)
+		defer ictx.Close()
+		return classify(im.app.InitChain(ictx, cmttypes.RequestInitChain{}, doc))
 	case "setnode": // setnode <existing node|-> <node>      (raw MutableState.SetNode)
 		var existing *node.Node
 		if w[1] != "-" {
@@ -566,7 +684,7 @@ func (im *impl) dump() []string {
 	for _, h := range raw.NodeStatus {
 		i, ok := U.hnum[h]
 		if !ok {
-			add("S?:0")
+			add("S?:0:0")
 			continue
 		}
 		ns, err := st.NodeStatus(ctx, U.pk[i])
@@ -575,18 +693,33 @@ func (im *impl) dump() []string {
 		if ns.ExpirationProcessed {
 			p = 1
 		}
-		add("S%d:%d", i, p)
+		add("S%d:%d:%d", i, p, uint64(ns.FreezeEndTime))
 	}
 	// Stake claims of every account of the universe.
 	claims := func(addr staking.Address, name string) {
 		acct, err := im.stake.Account(ctx, addr)
 		must(err)
-		for c := range acct.Escrow.StakeAccumulator.Claims {
+		for c, ths := range acct.Escrow.StakeAccumulator.Claims {
 			cn, ok := U.claim[c]
 			if !ok {
 				cn = "?" + string(c)
 			}
-			add("C%s/%s", name, cn)
+			var ts []string
+			for _, t := range ths {
+				if t.Global != nil {
+					ts = append(ts, strconv.Itoa(int(*t.Global)))
+				} else {
+					ts = append(ts, "c")
+				}
+			}
+			tl := "-"
+			if len(ts) > 0 {
+				tl = strings.Join(ts, ".")
+			}
+			add("C%s/%s=%s", name, cn, tl)
+		}
+		if !acct.Escrow.Active.Balance.IsZero() {
+			add("B%s=%s", name, acct.Escrow.Active.Balance.String())
 		}
 	}
 	for k := 1; k <= nKeys; k++ {
@@ -608,7 +741,11 @@ func runImpl(ops []string) (lines []string, panicked string) {
 		if w[0] == "new" {
 			mx, _ := strconv.ParseUint(w[1], 10, 64)
 			db, _ := strconv.ParseUint(w[2], 10, 64)
-			im = newImpl(mx, db)
+			var thr []int
+			if len(w) > 4 {
+				thr = nums(w[4])
+			}
+			im = newImpl(mx, db, thr)
 			lines = append(lines, op)
 			continue
 		}
@@ -734,32 +871,8 @@ func (g *gen) apply(op string) {
 		defer func() { _ = recover() }()
 		res = g.im.exec(w)
 	}()
-	if res != "ok" {
-		return
-	}
-	switch w[0] {
-	case "regentity":
-		g.ents[atoi(w[2])] = true
-	case "deregentity":
-		delete(g.ents, atoi(w[1]))
-	case "regnode":
-		n := parseNode(w[2])
-		g.nodes[n.id] = n
-	case "regruntime":
-		g.rts[atoi(w[2])] = true
-	case "epoch":
-		func() {
-			defer func() { _ = recover() }()
-			ns, err := g.im.state.Nodes(g.im.ctx)
-			if err != nil {
-				return
-			}
-			g.nodes = map[int]nodeSpec{}
-			for _, n := range ns {
-				sp := parseNode(specOf(n))
-				g.nodes[sp.id] = sp
-			}
-		}()
+	if w[0] == "initchain" || (res == "ok" && w[0] != "freeze" && w[0] != "setbalance" && w[0] != "unfreeze") {
+		g.refresh()
 	}
 }
 
@@ -806,6 +919,19 @@ func (g *gen) freshKeys(n int) []int {
 }
 
 func (g *gen) freshKey() int { return g.freshKeys(1)[0] }
+
+// someNode picks a node id, mostly a registered one.
+func (g *gen) someNode() int {
+	if len(g.nodes) > 0 && g.r.Chance(5, 6) {
+		var l []int
+		for id := range g.nodes {
+			l = append(l, id)
+		}
+		sort.Ints(l)
+		return l[g.r.Intn(len(l))]
+	}
+	return g.pick(nodeKeys)
+}
 
 // someRuntimes picks runtimes for a node descriptor, mostly registered ones.
 func (g *gen) someRuntime() int {
@@ -1035,13 +1161,163 @@ func (g *gen) regRuntime() string {
 }
 
 // genTx generates a history of transactions and epoch transitions.
+// refresh re-reads the generator's shadow from its instance of the real state.
+func (g *gen) refresh() {
+	defer func() { _ = recover() }()
+	ctx, st := g.im.ctx, g.im.state
+	if ns, err := st.Nodes(ctx); err == nil {
+		g.nodes = map[int]nodeSpec{}
+		for _, n := range ns {
+			sp := parseNode(specOf(n))
+			g.nodes[sp.id] = sp
+		}
+	}
+	if es, err := st.Entities(ctx); err == nil {
+		g.ents = map[int]bool{}
+		for _, e := range es {
+			g.ents[U.num[e.ID]] = true
+		}
+	}
+	if rs, err := st.AllRuntimes(ctx); err == nil {
+		g.rts = map[int]bool{}
+		for _, rt := range rs {
+			g.rts[U.rtnum[rt.ID]] = true
+		}
+	}
+}
+
+// genesis generates an `initchain` operation: entities, runtimes (incl. consensus-governed and suspended
+// ones), nodes (incl. already expired ones, bad signatures, foreign entities), statuses (incl. frozen ones
+// and statuses of nodes that are not registered).
+func (g *gen) genesis() string {
+	r := g.r
+	var es, rs, ss, ns, ts []string
+	for _, e := range entKeys {
+		if r.Chance(5, 6) {
+			var l []int
+			for _, k := range nodeKeys {
+				if g.homeEntity(k) == e {
+					l = append(l, k)
+				}
+			}
+			signer, valid := e, 1
+			if r.Chance(1, 30) {
+				signer = g.anyKey()
+			}
+			if r.Chance(1, 40) {
+				valid = 0
+			}
+			es = append(es, fmt.Sprintf("%d:%s:%d:%d", e, showNums(l), signer, valid))
+		}
+	}
+	for id := 1; id <= nRts; id++ {
+		kind := "c"
+		if id == nRts {
+			kind = "k"
+		}
+		gov := []string{"e", "e", "r", "c"}[r.Intn(4)]
+		if kind == "k" && gov == "r" && r.Chance(9, 10) {
+			gov = "e"
+		}
+		item := fmt.Sprintf("%d:%d:%s:%s", id, g.pick(entKeys), gov, kind)
+		switch r.Intn(5) {
+		case 0, 1, 2:
+			rs = append(rs, item)
+		case 3:
+			ss = append(ss, item)
+		}
+	}
+	used := map[int]bool{}
+	for _, id := range nodeKeys {
+		if !r.Chance(2, 3) {
+			continue
+		}
+		var f []int
+		for _, k := range subPool {
+			if !used[k] && len(f) < 4 {
+				f = append(f, k)
+			}
+		}
+		if len(f) < 4 {
+			continue
+		}
+		if r.Chance(1, 12) { // take a key of an earlier genesis node
+			f[1] = subPool[0]
+		}
+		for _, k := range f {
+			used[k] = true
+		}
+		n := nodeSpec{id: id, ent: g.homeEntity(id), cons: f[0], p2p: f[1], tls: f[2], vrf: f[3], roles: 8, exp: uint64(r.Intn(int(g.max) + 1))}
+		if r.Chance(1, 4) {
+			n.roles = 9
+			n.rts = []int{1 + r.Intn(nRts-1)}
+		}
+		signers := []int{n.id, n.p2p, n.cons, n.tls, n.vrf}
+		valid := 1
+		switch r.Intn(25) {
+		case 0:
+			signers = signers[1:]
+		case 1:
+			valid = 0
+		case 2:
+			n.ent = g.pick(entKeys)
+		}
+		ns = append(ns, fmt.Sprintf("%s/%s/%d", n, showNums(signers), valid))
+		if r.Chance(1, 3) {
+			ts = append(ts, fmt.Sprintf("%d:%d:%d", id, r.Intn(2), r.Intn(4)))
+		}
+	}
+	if r.Chance(1, 5) { // a status of a node that is not registered
+		ts = append(ts, fmt.Sprintf("%d:0:%d", 20+r.Intn(4), r.Intn(3)))
+	}
+	grp := func(tag string, l []string) string {
+		if len(l) == 0 {
+			return tag + "=-"
+		}
+		return tag + "=" + strings.Join(l, ";")
+	}
+	return "initchain " + strings.Join([]string{grp("E", es), grp("R", rs), grp("S", ss), grp("N", ns), grp("T", ts)}, " ")
+}
+
+// genTx generates a history of transactions, epoch transitions and environment steps.
 func genTx(r *hlib.Rng, nops int, res *hlib.Result) []string {
 	g := &gen{r: r, res: res, nodes: map[int]nodeSpec{}, ents: map[int]bool{}, rts: map[int]bool{}, max: uint64(2 + r.Intn(4))}
 	debond := uint64(r.Intn(3))
-	g.im = newImpl(g.max, debond)
-	ops := []string{fmt.Sprintf("new %d %d tx", g.max, debond)}
-	// most histories start with the entities (and a runtime) in place
-	if r.Chance(9, 10) {
+	// stake thresholds: all zero (stake never matters) or small values with balances around their sums
+	thr := make([]int, 7)
+	staked := r.Chance(2, 3)
+	if staked {
+		for i := range thr {
+			thr[i] = []int{0, 1, 2, 3, 5}[r.Intn(5)]
+		}
+		res.Count("case:nonzero-thresholds")
+	}
+	g.im = newImpl(g.max, debond, thr)
+	ops := []string{fmt.Sprintf("new %d %d tx %s", g.max, debond, showNums(thr))}
+	first := 1
+	if staked {
+		for _, e := range entKeys {
+			ops = append(ops, fmt.Sprintf("setbalance e%d %d", e, r.Intn(16)))
+		}
+		for rt := 1; rt <= nRts; rt++ {
+			if r.Bool() {
+				ops = append(ops, fmt.Sprintf("setbalance r%d %d", rt, r.Intn(6)))
+			}
+		}
+	}
+	switch {
+	case r.Chance(1, 4): // the chain starts from a genesis document
+		if staked && r.Chance(3, 4) { // mostly enough stake for the genesis registrations
+			for _, e := range entKeys {
+				ops = append(ops, fmt.Sprintf("setbalance e%d %d", e, 15+r.Intn(30)))
+			}
+			for rt := 1; rt <= nRts; rt++ {
+				ops = append(ops, fmt.Sprintf("setbalance r%d %d", rt, 3+r.Intn(6)))
+			}
+		}
+		ops = append(ops, g.genesis())
+		res.Count("op:initchain")
+	case r.Chance(9, 10): // most other histories start with the entities (and a runtime) in place
 		for _, e := range entKeys {
 			var ns []int
 			for _, k := range nodeKeys {
@@ -1055,9 +1331,9 @@ func genTx(r *hlib.Rng, nops int, res *hlib.Result) []string {
 		if r.Bool() {
 			ops = append(ops, fmt.Sprintf("regruntime e2 %d 2 e k", nRts))
 		}
-		for _, op := range ops[1:] {
-			g.apply(op)
-		}
+	}
+	for _, op := range ops[first:] {
+		g.apply(op)
 	}
 	for i := 0; i < nops; i++ {
 		var op string
@@ -1069,12 +1345,33 @@ func genTx(r *hlib.Rng, nops int, res *hlib.Result) []string {
 		case k < 12:
 			op = fmt.Sprintf("deregentity %d", g.pick(entKeys))
 			res.Count("op:deregentity")
-		case k < 75:
+		case k < 66:
 			op = g.regNode()
 			res.Count("op:regnode")
-		case k < 83:
+		case k < 74:
 			op = g.regRuntime()
 			res.Count("op:regruntime")
+		case k < 78: // slashing freezes a node
+			op = fmt.Sprintf("freeze %d %d", g.someNode(), g.epoch+uint64(r.Intn(4)))
+			res.Count("op:freeze")
+		case k < 83:
+			id := g.someNode()
+			tx := g.homeEntity(id)
+			if n, ok := g.nodes[id]; ok {
+				tx = n.ent
+			}
+			if r.Chance(1, 5) {
+				tx = g.anyKey()
+			}
+			op = fmt.Sprintf("unfreeze %d %d", tx, id)
+			res.Count("op:unfreeze")
+		case k < 88 && staked:
+			if r.Chance(3, 4) {
+				op = fmt.Sprintf("setbalance e%d %d", g.pick(entKeys), r.Intn(20))
+			} else {
+				op = fmt.Sprintf("setbalance r%d %d", 1+r.Intn(nRts), r.Intn(8))
+			}
+			res.Count("op:setbalance")
 		default:
 			switch r.Intn(6) {
 			case 0:
@@ -1096,6 +1393,7 @@ func genTx(r *hlib.Rng, nops int, res *hlib.Result) []string {
 // that need not satisfy the registration rules (order of index writes, state package only).
 func genRaw(r *hlib.Rng, nops int, res *hlib.Result) []string {
 	ops := []string{"new 5 1 raw"}
+	_ = r
 	cur := map[int]nodeSpec{}
 	pool := []int{9, 10, 11, 12, 13, 14, 15}
 	distinct := func() []int {
